@@ -19,9 +19,9 @@ def nls(a, b):
 
 @pred
 def scan(self):
-    """the scanner state: cursor in range, a pending mark is one already yielded (and never a newline), the line
+    """the scanner state: cursor in range, a pending mark is the one yielded last (and never a newline), the line
     counter is the number of newline marks consumed (minus one for the newline put in front of the text)"""
-    return (0 <= CUR() <= NMARKS() and -1 <= midx(self._unaccepted_mark) < CUR() and midx(self._unaccepted_mark) < NMARKS()
+    return (0 <= CUR() <= NMARKS() and (midx(self._unaccepted_mark) == -1 or (midx(self._unaccepted_mark) == CUR() - 1 and CUR() >= 1 and mk(CUR() - 1) != 6))
             and len(self.bibstr) == BLEN() and self._current_line == nls(0, CUR()) - 1)
 
 
@@ -378,3 +378,81 @@ class _:
     }
     raises = {"BlockAbortedException": {"when": None, "ensures": {"C04.aborted": "scan(self) and isint(exc.end_index) and ((midx(self._unaccepted_mark) > old(CUR()) - 1 and CUR() == midx(self._unaccepted_mark) + 1 and no_block_start(old(CUR()), midx(self._unaccepted_mark)) and ival(exc.end_index) == ms(midx(self._unaccepted_mark))) or (midx(self._unaccepted_mark) == -1 and CUR() == NMARKS() and no_block_start(old(CUR()), NMARKS()) and ival(exc.end_index) == BLEN()))"}}}
     modifies = ["@self._unaccepted_mark", "@self._current_char_index", "@self._current_line", "@self._open_brackets", "ghost:cur:int", "ghost:fe:arr", "ghost:fr:arr", "ghost:fks:arr", "ghost:ec:int"]
+
+
+# ---- free text between blocks -------------------------------------------------------------------------------------
+
+@rec(args={"s": "str", "i": "int"}, ret="int")
+def nlc(s, i):
+    """number of newline characters among the first i characters of s"""
+    return 0 if i <= 0 else nlc(s, i - 1) + (1 if s[i - 1] == "\n" else 0)
+
+
+@pred
+def comment_of(result, region, start_line):
+    """result is the ImplicitComment for the free text `region`: lead is the first character that is not whitespace"""
+    return exists(lead, 0 <= lead < len(region), forall(p, 0 <= p < lead, region[p].isspace()) and not region[lead].isspace()
+                  and result._comment == region[lead:].rstrip() and isstr(result._raw) and sval(result._raw) == result._comment
+                  and len(result._comment) > 0 and isint(result._start_line_in_file)
+                  and ival(result._start_line_in_file) == start_line + nlc(region, lead))
+
+
+@contract(S + "_end_implicit_comment")
+class _:
+    """the free text from the pending implicit-comment start to end_char_index: nothing when no comment is pending or
+    the text is all whitespace; otherwise an ImplicitComment whose raw and comment are that text without its leading
+    whitespace and trailing whitespace, starting on the pending line plus the newlines among the leading whitespace"""
+    # ASSUMED in the proof of split(): 38 of its 40 obligations discharge, two (an all-whitespace text yields no
+    # comment; rstrip of a slice that starts with a non-blank is not empty) stay undecided in z3 and cvc5 (strings
+    # under quantifiers); the function is checked bounded by the native layer (p03) instead.
+    trusted = True
+    sorts = {"self": "ref:Splitter", "end_char_index": "int", "result": "optref:ref:ImplicitComment"}
+    requires = {"range": "implies(not isnone(self._implicit_comment_start), isint(self._implicit_comment_start) and 0 <= ival(self._implicit_comment_start) <= end_char_index <= len(self.bibstr))"}
+    locals = {"comment": "str", "char": "str", "i": "int"}
+    loops = {1: {"cursor": "_i", "invariant": {
+        "index": "(_i == 0 and i == 0) or (_i > 0 and i == _i - 1)",
+        "whitespace": "forall(p, 0 <= p < _i, comment[p].isspace())",
+        "count": "leading_empty_lines == nlc(comment, _i)",
+    }, "props": ("C03",)}}
+    ensures = {
+        "C03.nothing-pending": "implies(isnone(self._implicit_comment_start), isnone(result))",
+        "C03.comment": "implies(not isnone(result), fresh(result) and isint(self._implicit_comment_start) and comment_of(result, self.bibstr[ival(self._implicit_comment_start):end_char_index], self._implicit_comment_start_line))",
+        "C03.none-means-blank": "implies(isnone(result) and not isnone(self._implicit_comment_start), forall(p, 0 <= p < end_char_index - ival(self._implicit_comment_start), self.bibstr[ival(self._implicit_comment_start):end_char_index][p].isspace()))",
+    }
+    raises = {}
+    modifies = []
+
+
+# ---- split() ------------------------------------------------------------------------------------------------------
+
+@pred
+def comment_start_ok(self):
+    """a pending free-text start lies at or before everything not yet consumed"""
+    return (isnone(self._implicit_comment_start)
+            or (isint(self._implicit_comment_start) and 0 <= ival(self._implicit_comment_start) <= BLEN()
+                and forall(j, CUR() <= j < NMARKS(), ival(self._implicit_comment_start) <= ms(j))
+                and implies(midx(self._unaccepted_mark) >= 0, ival(self._implicit_comment_start) <= ms(midx(self._unaccepted_mark)))))
+
+
+@contract(S + "split")
+class _:
+    """never raises and terminates (C01): every BlockAbortedException becomes a ParsingFailedBlock, the parser-state
+    and regex-mismatch branches are dead under A-RE, Library.add is called without fail_on_duplicate_key; the marks
+    are consumed strictly left to right and a handed-back '@' mark is the next block start (C04); the library given
+    is the library returned and stays well formed (C08)"""
+    uses_marks = True
+    sorts = {"self": "ref:Splitter", "library": "optref:ref:Library", "result": "ref:Library"}
+    requires = {"fresh-splitter": "midx(self._unaccepted_mark) == -1 and self._current_line == -1 and len(self.bibstr) == BLEN() and isint(self._implicit_comment_start) and ival(self._implicit_comment_start) == 0 and self._implicit_comment_start_line == -1",
+                "library": "implies(not isnone(library), WF(library))"}
+    locals = {"library": "ref:Library"}
+    loops = {1: {"invariant": {
+        "scan": "scan(self) and not isnone(self._markiter)",
+        "library": "allocated(library) and WF(library) and implies(not isnone(old(library)), same(library, old(library)))",
+        "comment-start": "comment_start_ok(self)",
+    }, "decreases": "2 * (NMARKS() - CUR()) + (1 if midx(self._unaccepted_mark) >= 0 else 0)", "props": ("C01", "C04", "C08")}}
+    ensures = {
+        "C01.returns-library": "WF(result) and implies(not isnone(library), same(result, library)) and implies(isnone(library), fresh(result))",
+        "C04.all-consumed": "CUR() == NMARKS() and midx(self._unaccepted_mark) == -1",
+    }
+    raises = {}
+    modifies = ["*"]
